@@ -161,7 +161,7 @@ def sameProgram (sortOn : Bool) (tin tout : Tree) : Bool :=
 
 def sameComments (tin tout : Tree) : Bool := comments tin == comments tout
 
-/-! ### `files([...])` flattening as coded (`TrimWhitespaces.visit_FunctionNode`, mformat.py:457-467) -/
+/-! ### `files([...])` flattening as coded (`TrimWhitespaces.visit_FunctionNode`, mformat.py) -/
 
 def Tree.kind : Tree → Kind
   | .node k _ _ _ _ => k
@@ -172,19 +172,37 @@ def Tree.ws : Tree → List Char
 /-- positional arguments (`node.arguments`) of an argument-list node -/
 def positional (kids : List Tree) : List Tree := kids.filter (fun t => t.kind != .symbol && t.kind != .kw)
 def keywords (kids : List Tree) : List Tree := kids.filter (fun t => t.kind == .kw)
+/-- the commas of an argument-list node -/
+def commasOf (kids : List Tree) : List Tree := kids.filter (fun t => t.kind == .symbol)
 
-/-- the new argument-list node of a `files(...)` call, when the rewrite applies -/
-def flattenFiles : Tree → Option Tree
+/-- `not (n.whitespaces and n.whitespaces.value.strip())` -/
+def blankWs (t : Tree) : Bool := (strip t.ws).isEmpty
+
+/-- one turn of the `while` loop: the call `files(<one array, no keywords>)` gets the array's own argument list,
+unless one of the whitespace nodes that would be dropped (of the two brackets, of the array, of the outer
+argument list and of its commas) holds a comment or a continuation -/
+def flattenStep : Tree → Option Tree
   | .node .func fl tx [nm, lp, .node .args afl atx akids aws, rp] ws =>
     match nm with
     | .node .id _ name _ _ =>
       if name = "files".toList ∧ (keywords akids).isEmpty then
         match positional akids with
-        | [.node .array _ _ [lb, inner, _rb] _] =>
-          if (strip lb.ws).isEmpty then some (.node .func fl tx [nm, lp, inner, rp] ws) else none
+        | [.node .array afl2 atx2 [lb, inner, rb] arrws] =>
+          if blankWs lb && blankWs rb && (strip arrws).isEmpty && (strip aws).isEmpty &&
+             (commasOf akids).all blankWs && inner.kind == .args then
+            some (.node .func fl tx [nm, lp, inner, rp] ws)
+          else none
         | _ => none
       else none
     | _ => none
   | _ => none
+
+/-- the loop (fuel = nesting bound): the flattened call and the number of array levels removed -/
+def flattenFiles : Nat → Tree → Tree × Nat
+  | 0, t => (t, 0)
+  | f + 1, t =>
+    match flattenStep t with
+    | some t' => let r := flattenFiles f t'; (r.1, r.2 + 1)
+    | none => (t, 0)
 
 end MesonModel.Fmt
